@@ -301,6 +301,57 @@ Example c06_spread_cells_float_clamped_nonvacuous :
   = map B2SF [f_of_me 9210498 (-9); f_of_me 13033438 (-8); f_of_me 10614095 (-7); f_of_Z 100000].
 Proof. vm_compute. reflexivity. Qed.
 
+(* ---------------------------------------------------------------- the accumulation of `dem` (binary32) *)
+(* The next theorems are stated over the reals with one rnd32 (round to nearest even to binary32) per C++ operation:
+   acc_R = the left-to-right float sums, inc_R = 0.5f*curDemand*invTotalDemand, dem_R ds vs k = the value of `dem`
+   after k additions when std::accumulate runs over ds and the loop visits the positive demands vs.  The bit-level
+   operations compute exactly rnd32 on finite values without overflow (fadd_correct, fmul_correct, f_of_Z_correct in
+   SpreadFloatProofs.v); the composition of these lemmas along the whole loop is not stated at bit level. *)
+
+(* [F] at most n cells with demands >= 1 (ints converted to float), total below 2^100: at every point of the loop
+   0 <= dem <= (1+u)^(2n+3) / (1-u)^n, u = 2^-24 (about 1 + 3 n 2^-24: dem CAN exceed 1, see
+   c06_spread_dem_exceeds_one_refuted; then 1.0f - dem < 0 and the coordinate passes max by (dem-1)(max-min)) *)
+Theorem c06_dem_float_bound : forall (ds vs : list R) (n k : nat),
+  Forall (fun d => fmt32 d /\ (1 <= d)%R) ds -> Forall (fun d => fmt32 d /\ (1 <= d)%R) vs ->
+  ds <> [] -> (sum_R vs <= sum_R ds)%R -> (length ds <= n)%nat -> (length vs <= n)%nat ->
+  (acc_R 0 ds <= bpow radix2 100)%R ->
+  (0 <= dem_R ds vs k <= (1 + bpow radix2 (-24)) ^ (2 * n + 3) / (1 - bpow radix2 (-24)) ^ n)%R.
+Proof. exact dem_R_bound. Qed.
+
+(* [F] at most 65536 cells in the bin: dem <= 1 + 1/64 *)
+Theorem c06_dem_float_bound_65536 : forall (ds vs : list R) (n k : nat),
+  Forall (fun d => fmt32 d /\ (1 <= d)%R) ds -> Forall (fun d => fmt32 d /\ (1 <= d)%R) vs ->
+  ds <> [] -> (sum_R vs <= sum_R ds)%R -> (length ds <= n)%nat -> (length vs <= n)%nat -> (Z.of_nat n <= 65536)%Z ->
+  (acc_R 0 ds <= bpow radix2 100)%R ->
+  (0 <= dem_R ds vs k <= 1 + / 64)%R.
+Proof. exact dem_R_bound_65536. Qed.
+
+Example c06_dem_float_bound_nonvacuous :
+  Forall (fun d => fmt32 d /\ (1 <= d)%R) [1%R] /\ [1%R] <> [] /\ (sum_R [1%R] <= sum_R [1%R])%R /\
+  (acc_R 0 [1%R] <= bpow radix2 100)%R.
+Proof. exact dem_R_bound_hyps_example. Qed.
+
+(* ---------------------------------------------------------------- the export step in binary64 *)
+(* exportPlacement evaluates std::round(x - 0.5 * placedWidth) in double (the float centre is promoted, 0.5 is a double
+   literal): export_coord_R x size = ZnearestA (rnd64 (x - size/2)) (round half away from zero of ONE binary64 rounding).
+   [F] the exposed lower-left plus half the size is within 1/2 + 2^-53 |x - size/2| + 2^-1075 of the float centre x;
+   with |x| <= 2^30 and an int size: within 1/2 + 2^-21.  (x itself is the binary32 blend: its own error is the
+   4u(|1-w||LB| + |w||UB|) of the check's tolerance and is not part of this statement.) *)
+Theorem c06_export_float_blend : forall (x : R) (size : Z),
+  (Rabs (IZR (export_coord_R x size) - (x - / 2 * IZR size))
+   <= / 2 + bpow radix2 (-53) * Rabs (x - / 2 * IZR size) + bpow radix2 (-1075))%R.
+Proof. exact export_coord_R_blend. Qed.
+
+Theorem c06_export_float_blend_bounded : forall (x : R) (size : Z),
+  (Rabs x <= bpow radix2 30)%R -> (Z.abs size <= 2 ^ 31)%Z ->
+  (Rabs (IZR (export_coord_R x size) - (x - / 2 * IZR size)) <= / 2 + bpow radix2 (-21))%R.
+Proof. exact export_coord_R_blend_bounded. Qed.
+
+(* the executable binary64 version on sample values: centre 122.5, size 7 -> 119; centre -0.5, size 0 -> -1 *)
+Example c06_export_float_nonvacuous :
+  export_coord_f (f_of_me 245 (-1)) 7 = Some 119%Z /\ export_coord_f (f_of_me (-1) (-1)) 0 = Some (-1)%Z.
+Proof. split; vm_compute; reflexivity. Qed.
+
 Print Assumptions c06_spread_cells_inside.
 Print Assumptions c06_spread_coord_inside.
 Print Assumptions c06_spread_coord_no_bin.
@@ -323,3 +374,7 @@ Print Assumptions c06_spread_dem_exceeds_one_refuted.
 Print Assumptions c06_spread_float_slack.
 Print Assumptions c06_spread_float_clamped_inside.
 Print Assumptions c06_spread_cells_float_clamped_entries_partial.
+Print Assumptions c06_dem_float_bound.
+Print Assumptions c06_dem_float_bound_65536.
+Print Assumptions c06_export_float_blend.
+Print Assumptions c06_export_float_blend_bounded.
